@@ -373,6 +373,10 @@ def validate(chk, runs, prop_invariants, label):
                         # its end state is still judged (mode obs)
                         if mode == "full" and scn_.threads > 1 and events[0].get("plan") == "kill":
                             continue
+                        # workers busy with the extra groups share the target directories and the log with the modelled commands: such a
+                        # run is judged by its end state only
+                        if mode == "full" and scn_.extra_groups:
+                            continue
                         for e in events:
                             f.write(json.dumps(denull(e)) + "\n")
             total += len(lst)
